@@ -1,9 +1,10 @@
 from .runner import Property
 from .fam_replica import ReplicaFam
+from .fam_cert import CertFam
 from .prop_C03 import REPLICA_TRUST
 
 PROP = Property(
-    "C10", ["HsVerif.Props.C10"], [ReplicaFam("c10")],
+    "C10", ["HsVerif.Props.C10"], [ReplicaFam("c10"), CertFam("c10")],
     facts=[
         {"func": "server/server.go:serviceImpl.Propose", "order": ["PeerIDFromContext", "GetBlock", "ProposalFromProto", "AddEvent"]},
         {"func": "server/server.go:serviceImpl.Vote", "order": ["PeerIDFromContext", "AddEvent"]},
@@ -21,7 +22,7 @@ PROP = Property(
 )
 
 META = {
-    "text": "Proof: no_panic — in the replica model no delivered event (arbitrary proposal, vote, timeout, new-view content, local timeout), in any state, leads to the model's panic; the only panicking operation left after the fix: commits is VerifyAggregateQC on an aggregate QC without signature (an existing repository test demands it) and both call sites are proved guarded. state_moves_on_evidence: every signed vote and every view change carries a verified certificate (C03, C07). Tie (this is where the Go-level nil dereferences live): messages are converted with ToProto, optional fields are REMOVED on the protobuf message (every optional part of proposals, votes, timeouts, new-views: block, QC, signature, hash, parent, commands, timestamp, aggregate QC, sync info, TC, peer id), sent through the real proto.Marshal/Unmarshal and the REAL gorums service handlers (serviceImpl.Propose/Vote/NewView/Timeout, reached through an overlay export) of a running replica in varied states, under recover; the model predicts every answer (panic or effects + state dump), an oracle flags any panic and any state change / effect on inputs in which nothing verifies. Three schemes, cache on and off, three rulesets.",
+    "text": "Proof: no_panic — in the replica model no delivered event (arbitrary proposal, vote, timeout, new-view content, local timeout), in any state, leads to the model's panic; the only panicking operation left after the fix: commits is VerifyAggregateQC on an aggregate QC without signature (an existing repository test demands it) and both call sites are proved guarded. state_moves_on_evidence: every signed vote and every view change carries a verified certificate (C03, C07). Tie (this is where the Go-level nil dereferences live): messages are converted with ToProto, optional fields are REMOVED on the protobuf message (every optional part of proposals, votes, timeouts, new-views: block, QC, signature, hash, parent, commands, timestamp, aggregate QC, sync info, TC, peer id), sent through the real proto.Marshal/Unmarshal and the REAL gorums service handlers (serviceImpl.Propose/Vote/NewView/Timeout, reached through an overlay export) of a running replica in varied states, under recover; the model predicts every answer (panic or effects + state dump), an oracle flags any panic and any state change / effect on inputs in which nothing verifies. Three schemes, cache on and off, three rulesets. BLS signatures whose bytes do not decode (cut short on the wire, trunc=) go the same way. The certificate family of C02 runs here too: certificates with mutually inconsistent fields (duplicate signers, participant counts that disagree with the QC map, unsigned genesis QC against its twin with a present-but-empty signature, nil signatures) through VerifyQuorumCert / VerifyTimeoutCert / VerifyAggregateQC / VerifyAnyQC of the real Authority.",
     "note": "Trusted: as C03; protobuf; gorums handler plumbing. Seven panics on absent fields were found this way on the original tree and fixed (three fix: commits); the model describes the repaired code.",
     "technique": "Lean 4 proof of panic-freedom of the handler model (mvcgen) + structure-directed wire fuzzing through the real handlers, differential against the model",
 }
